@@ -463,6 +463,9 @@ func runScanCase(ctx *Ctx, lc *LCase, caseIdx int) {
 	sampled := false
 	var prevScan *scanEnv
 	for oi, o := range opts {
+		if lc.Golden != nil && o != lc.Golden.Opt {
+			continue
+		}
 		if lc.Exh {
 			// behaviourally distinct sets only
 			s := o.String()
@@ -536,6 +539,14 @@ func runScanCase(ctx *Ctx, lc *LCase, caseIdx int) {
 			env.viol("load-failed", map[string]interface{}{"panic": fmt.Sprint(pv), "error": fmt.Sprint(err), "stack": stack})
 		} else {
 			insts = append(insts, Inst{"loaded", ld})
+		}
+		if lc.Golden != nil {
+			if gl, err, pv, stack := loadTrie(enc, lc.Golden.Stream); pv != nil || err != nil {
+				env.inst = "golden-loaded"
+				env.viol("golden-stream-does-not-load", map[string]interface{}{"golden": lc.Golden.Name, "panic": fmt.Sprint(pv), "error": fmt.Sprint(err), "stack": stack})
+			} else {
+				insts = append(insts, Inst{"golden-loaded", gl})
+			}
 		}
 		for _, in := range insts {
 			env.inst, env.st = in.Name, in.St
@@ -643,7 +654,7 @@ func init() {
 		},
 		Gates: shapeGates("shape:with_257bit_nodes", "shape:with_257bit_below_root", "shape:with_17bit_nodes", "shape:with_short_nodes", "shape:with_straddling_short",
 			"shape:with_end_of_key_label", "shape:with_halfbyte_prefix", "shape:with_aligned_prefix", "shape:with_varlen_leaves", "shape:varlen_grow_and_shrink",
-			"refusal:panicked", "scans:full_length", "scans:cut_by_end_bound", "scans:empty_result", "interleaved_scan_sets", "survivor_rescans", "iters:run_to_exhaustion", "instances:loaded", "valkind:str16", "valkind:none"),
+			"refusal:panicked", "scans:full_length", "scans:cut_by_end_bound", "scans:empty_result", "interleaved_scan_sets", "survivor_rescans", "iters:run_to_exhaustion", "instances:loaded", "instances:golden-loaded", "valkind:str16", "valkind:none"),
 		Assumptions: []string{
 			"the reference model (sorted retained list, lower bound) is correct",
 			"reference value encodings in harness/gen_vals.go are the documented layouts",
@@ -651,7 +662,7 @@ func init() {
 		},
 		RaceCases: func(tier string) int {
 			if tier == "thorough" {
-				return len(directedKeySets())*2 + numBig(tier) + p.raceCases
+				return len(directedKeySets())*2 + numBig(tier) + len(loadGolden()) + p.raceCases
 			}
 			return 0
 		},
